@@ -98,6 +98,7 @@ CHECKS = {
             {"name": "TestC03Determinism", "checks": [1500, 30000], "shards": [2, 16], "floor": 0.85},
             {"name": "TestC03Dates", "enum": True},
             {"name": "TestC03LongRender", "enum": True},
+            {"name": "TestC03Swap", "enum": True},
             K,
         ],
         "assumptions": ["a nondeterministic construct shows a difference within 8 in-process renders x 3 context materialisations (+ 2 fresh processes for every 5th case)"],
